@@ -186,7 +186,66 @@ def config_worker(part, chunk, seed, full_motions_every):
     part.nontriv(repr(chunk[0][1]) if chunk else "")
 
 
+BATCH_SIZES = (1, 2, 3, 255, 256, 257, 4095, 4096, 4097, 65535, 65536, 65537, 70001, 131071, 131072, 131073)
+
+
+def batch_worker(part, sizes):
+    """
+    batch-size independence: rho / weights of the first N points of one fixed point list equal, index by index, the values
+    obtained in blocks of 1000 points (the regime tied to the tables by the configuration sweep); N straddles powers of two
+    up to 2^17 (blocked / chunked evaluation paths)
+    """
+    from chmpy.interpolate.density import PromoleculeDensity, StockholderWeight
+
+    sites = np.array([[0.0, 0.0, 0.0], [0.757, 0.586, 0.0], [-0.757, 0.586, 0.0], [2.9, 0.1, 0.2]])
+    zs = np.array([8, 1, 1, 6])
+    g = (np.arange(51) - 25) * 0.17 + 0.041
+    pts = np.array(np.meshgrid(g, g + 0.013, g - 0.029, indexing="ij")).reshape(3, -1).T
+    dmin = np.min(np.linalg.norm(pts[:, None, :] - sites[None, :, :], axis=2), axis=1)
+    pts = np.ascontiguousarray(pts[dmin >= 0.3])
+    # a stride that is coprime with the grid dimensions mixes near and far points at every index range
+    pts = pts[(np.arange(len(pts)) * 7919) % len(pts)]
+    assert len(pts) >= max(BATCH_SIZES)
+    d = PromoleculeDensity((zs, sites))
+    sw = StockholderWeight.from_arrays(zs[:3], sites[:3], zs[3:], sites[3:])
+    sw2 = StockholderWeight.from_arrays(zs[3:], sites[3:], zs[:3], sites[:3])
+    nmax = max(sizes)
+    ref_rho = np.concatenate([np.asarray(d.rho(pts[i:i + 1000]), dtype=np.float64) for i in range(0, nmax, 1000)])[:nmax]
+    ref_w = np.concatenate([np.asarray(sw.weights(pts[i:i + 1000]), dtype=np.float64) for i in range(0, nmax, 1000)])[:nmax]
+    for N in sizes:
+        part.ev()
+        part.nstates(1)
+        case = {"kind": "batch", "N": int(N)}
+        try:
+            got = np.asarray(d.rho(pts[:N]), dtype=np.float64)
+            w = np.asarray(sw.weights(pts[:N]), dtype=np.float64)
+            w2 = np.asarray(sw2.weights(pts[:N]), dtype=np.float64)
+        except Exception as e:
+            part.fail("batch-raise", "evaluation of %d points raised %r" % (N, e), case)
+            continue
+        part.tr(3 * N)
+        if got.shape != (N,) or w.shape != (N,):
+            part.fail("batch-shape", "%d points give %s densities / %s weights" % (N, got.shape, w.shape), case)
+            continue
+        bad = np.nonzero(np.abs(got - ref_rho[:N]) > 1e-6 * np.abs(ref_rho[:N]))[0]
+        if len(bad):
+            part.fail("batch-dependence:rho", "rho of a list of %d points differs from the same points evaluated in blocks of 1000 at %d index(es), first %d: %.6g vs %.6g"
+                      % (N, len(bad), bad[0], got[bad[0]], ref_rho[bad[0]]), case)
+        if (got <= 0).any():
+            part.fail("positivity", "non-positive density in a list of %d points at index %d" % (N, int(np.argmin(got))), case)
+        badw = np.nonzero(np.abs(w - ref_w[:N]) > 1e-6)[0]
+        if len(badw):
+            part.fail("batch-dependence:weights", "weights of a list of %d points differ from the same points evaluated in blocks of 1000 at %d index(es), first %d: %.6g vs %.6g"
+                      % (N, len(badw), badw[0], w[badw[0]], ref_w[badw[0]]), case)
+        if np.abs(w + w2 - 1).max() > 1e-5:
+            part.fail("weight-complement", "complementary weights of a list of %d points do not sum to one at index %d" % (N, int(np.argmax(np.abs(w + w2 - 1)))), case)
+        part.outcome(("batch", N > 65536, N % 2))
+
+
 def worker(part, job, seed):
+    if job[0] == "batch":
+        batch_worker(part, job[1])
+        return
     if job[0] == "table":
         table_worker(part, job[1])
     else:
@@ -216,6 +275,8 @@ def run(ctx):
             ctx.fail("bad-element-accepted:%d" % bad, "PromoleculeDensity accepts atomic number %d" % bad, {"kind": "bad", "z": bad})
         except ValueError:
             pass
+    bs = BATCH_SIZES if ctx.thorough else tuple(n for n in BATCH_SIZES if n <= 70001)
+    jobs += [("batch", bs[i::4]) for i in range(4)]
     jobs += [("config", c, 20 if not ctx.thorough else 5) for c in chunked(configs, max(1, len(configs) // 200))]
     ctx.pmap(worker, jobs, seed=ctx.seed)
     ctx.rule = ("(a) Z=1..103 x 4095 table intervals x t in {1/4,3/4} + 8 radii beyond the table end (r >= 0.3 A); (b) placements of 1..%d atoms from %s on a "
@@ -223,7 +284,7 @@ def run(ctx):
                 "bipartitions (additivity; weights with 3 backgrounds; complements), rigid motions (23 octahedral + 3 generic rotations + 3 translations + 1 "
                 "combined: all of them on every %dth configuration, 3 on the others); distinct = elements and configurations"
                 % (kmax, ELEMENTS, len(configs), "", 5 if ctx.thorough else 20))
-    ctx.bounds = {"configurations": len(configs), "max_atoms": kmax, "rel_tol": REL}
+    ctx.bounds = {"configurations": len(configs), "max_atoms": kmax, "rel_tol": REL, "batch_sizes": list(bs)}
     ctx.assumptions = ["the reference is evaluated at the float32-rounded coordinates the kernel receives", "beyond the table end either fill value (last tabulated value or 0) is accepted",
                        "points within 0.3 A of a nucleus excluded, as the property says", "compiled kernel exercised as built; Python-side row binding, unit handling and wrappers are live"]
     ctx.sample({"a_configuration": {"sites": [0, 4], "zs": [8, 1]}, "n_points": int(len(eval_points(SITES[[0, 4]])))})
@@ -234,3 +295,5 @@ def replay(ctx, case):
         table_worker(ctx, [case["z"]])
     elif case["kind"] == "config":
         config_worker(ctx, [(0, (tuple(case["sites"]), tuple(case["zs"])))], case["seed"], 1)
+    elif case["kind"] == "batch":
+        batch_worker(ctx, [case["N"]])
